@@ -3,11 +3,14 @@
 package agent
 
 import (
+	"io"
+
 	"github.com/postalsys/muti-metroo/internal/forward"
 	"github.com/postalsys/muti-metroo/internal/identity"
 	"github.com/postalsys/muti-metroo/internal/logging"
 	"github.com/postalsys/muti-metroo/internal/peer"
 	"github.com/postalsys/muti-metroo/internal/protocol"
+	"github.com/postalsys/muti-metroo/internal/routing"
 )
 
 // C20NewAgent builds the smallest Agent on which handleStreamOpen can run for the /verif
@@ -24,4 +27,16 @@ func C20NewAgent(id identity.AgentID, fh *forward.Handler) *Agent {
 // C20HandleStreamOpen exposes the unexported STREAM_OPEN dispatcher.
 func (a *Agent) C20HandleStreamOpen(peerID identity.AgentID, f *protocol.Frame) {
 	a.handleStreamOpen(peerID, f)
+}
+
+// C20InjectPeer gives the agent a connected next hop whose outgoing frames go to w.
+func C20InjectPeer(a *Agent, remote identity.AgentID, w io.Writer) {
+	peer.C20InjectPeer(a.peerMgr, a.id, remote, w)
+}
+
+// C20AddForwardRoute installs a learned port-forward route key -> nextHop (the exit node itself).
+func C20AddForwardRoute(a *Agent, key string, nextHop identity.AgentID, seq uint64) bool {
+	return a.routeMgr.ForwardTable().AddRoute(&routing.ForwardRoute{
+		Key: key, NextHop: nextHop, OriginAgent: nextHop, Metric: 1, Path: []identity.AgentID{nextHop}, Sequence: seq,
+	})
 }
